@@ -94,7 +94,8 @@ Record case := mkCase {
   c_term : terminal;
   c_avail : N;                         (* available_parallelism *)
   c_sched : list nat;                  (* schedule prefix; completed round-robin *)
-  c_fuel : nat                         (* round-robin rounds after the prefix *)
+  c_fuel : nat;                        (* round-robin rounds after the prefix *)
+  c_panic : option (nat * Z)           (* the closure with this identity panics on this argument *)
 }.
 
 Definition task_of (t : terminal) : ParTask :=
@@ -187,13 +188,20 @@ Definition empty_collect (k : kind) (t : terminal) : bool :=
   | _, _ => false
   end.
 
-Fixpoint complete (len : nat) (known : bool) (stop : nat -> bool) (r : Runner) (rounds : nat) (s : sys) : sys :=
+Fixpoint complete (len : nat) (known : bool) (stop panics : nat -> bool) (r : Runner) (rounds : nat) (s : sys) : sys :=
   match rounds with
   | O => s
   | S n =>
       if all_doneb s then s
-      else complete len known stop r n
-             (run len known stop (m_dospawn r) (m_nextc r) s (seq 0 (S (length (ws s)))))
+      else complete len known stop panics r n
+             (run len known stop panics (m_dospawn r) (m_nextc r) s (seq 0 (S (length (ws s)))))
+  end.
+
+(** does this call list contain the panicking call? *)
+Definition hits (pt : option (nat * Z)) (l : list (nat * Z)) : bool :=
+  match pt with
+  | None => false
+  | Some (sid, a) => existsb (fun c => Nat.eqb (fst c) sid && Z.eqb (snd c) a) l
   end.
 
 Definition exec (c : case) : obs :=
@@ -213,10 +221,15 @@ Definition exec (c : case) : obs :=
   let n := length src in
   let params := ps_params st in
   let seqmode := is_sequential params || empty_collect k t in
-  if seqmode then
+  let pt := c_panic c in
+  if hits pt (ps_clog st) then
+    (* the closure panics while the computation is being built (eager site) or inside for_each's map *)
+    mkObs RPanic params (kind_of (ps_par st0)) (ps_clog st0) (ps_consumed st0) [] 0 [] [] false
+  else if seqmode then
     let tr := flat_map (trace p) src in
     let '(res, lg) := finish_seq t tr src p in
-    mkObs res params (kind_of (ps_par st0)) (ps_clog st0) (ps_consumed st0) [late ++ lg] 0 [] [] true
+    mkObs (if hits pt lg then RPanic else res) params (kind_of (ps_par st0)) (ps_clog st0) (ps_consumed st0)
+          [late ++ lg] 0 [] [] true
   else
     let input_len := if c_known c || (0 <? ps_runs st)%nat then Some (N.of_nat n) else None in
     match runner_new params (kernel_task k t) input_len (c_avail c) with
@@ -225,10 +238,12 @@ Definition exec (c : case) : obs :=
         let pe := pe_of p src in
         let stop := if is_find t then stop_of p src else (fun _ => false) in
         let known := match input_len with Some _ => true | None => false end in
-        let s0 := run n known stop (m_dospawn r) (m_nextc r) (init (m_c0 r)) (c_sched c) in
-        let s := complete n known stop r (c_fuel c) s0 in
+        let consumed := fun i => if is_find t then calls (fst (upto_yield (pe i))) else calls (pe i) in
+        let panics := fun i => hits pt (consumed i) in
+        let s0 := run n known stop panics (m_dospawn r) (m_nextc r) (init (m_c0 r)) (c_sched c) in
+        let s := complete n known stop panics r (c_fuel c) s0 in
         let wl := ws s in
-        let res := if all_doneb s then finish t pe n (kind_of p) wl else RPanic in
+        let res := if all_doneb s && negb (any_dead s) then finish t pe n (kind_of p) wl else RPanic in
         let wlog := if is_find t then map (w_calls_find pe) wl else map (w_calls_full pe) wl in
         mkObs res params (kind_of (ps_par st0)) (ps_clog st0) (ps_consumed st0) (late :: wlog)
               (length wl) (map csize wl) (map pulls wl) false
